@@ -163,7 +163,7 @@ func (db *ContractDB) parseContractFile(path, pkgPath string, prefix string, ass
 			if kw == "iface" {
 				k = pkgPath + " iface " + rest
 			}
-			if assumed && pkgPath == "" {
+			if assumed && prefix == "" {
 				k = rest
 				if kw == "iface" {
 					k = "iface " + rest
